@@ -99,6 +99,27 @@ func runCase(t *testing.T, c *Case, sch scheduler, maxMoves int, drain bool, emi
 			cancel()
 			c.Moves = append(c.Moves, Move{M: "cancel", O: "done"})
 		}
+		// "prefilled": the producer is done before the stage exists - what fits the input buffers is sent and, when
+		// that is everything, the input is closed; the stage then finds a filled (and closed) channel, the way
+		// pipe.Seq hands one over.  The moves are recorded like any other (they cannot block).
+		prefilled := strings.HasPrefix(c.Gen, "prefilled")
+		prePos := make([]int, len(ins))
+		preClosed := make([]bool, len(ins))
+		if prefilled && c.Stage.exx == nil {
+			for i := range ins {
+				for prePos[i] < len(c.Inputs[i]) && prePos[i] < c.ICaps[i] {
+					x := c.Inputs[i][prePos[i]]
+					ins[i] <- x
+					prePos[i]++
+					c.Moves = append(c.Moves, Move{M: "send", I: i, X: x, O: "done"})
+				}
+				if prePos[i] == len(c.Inputs[i]) {
+					close(ins[i])
+					preClosed[i] = true
+					c.Moves = append(c.Moves, Move{M: "close", I: i, O: "done"})
+				}
+			}
+		}
 		outs := build(ctx, c.Stage, ins, rec)
 		// a SECOND INSTANCE of the same stage is alive during the whole case, with inputs of its own that nobody feeds
 		// and a context of its own: two instances share nothing, whatever is pooled or cached inside the package
@@ -123,7 +144,7 @@ func runCase(t *testing.T, c *Case, sch scheduler, maxMoves int, drain bool, emi
 		if c.Stage.Kind == "throttle" {
 			nobs = 1
 		}
-		st := &runState{stage: c.Stage, inputs: c.Inputs, pos: make([]int, len(ins)), closedIn: make([]bool, len(ins)),
+		st := &runState{stage: c.Stage, inputs: c.Inputs, pos: prePos, closedIn: preClosed,
 			closedOut: make([]bool, nobs), nouts: nobs, timed: c.Stage.Kind == "emit" || c.Stage.Kind == "throttle", cancelled: preCancelled}
 		if c.Stage.Kind == "seq" {
 			c.Inputs = nil
